@@ -15,11 +15,13 @@
                            (lib/props/c13.py passes them as extra arguments, entries in document order; the harness reads the texts)
      routes_ser <type> <value>             (C13) the same on the trees toml::to_string / toml::ser::ValueSerializer build
      tryfrom <type> <value>                (C13) Value::try_from / Table::try_from against the tree of the serialized text
+     spanned <stype> <doc>                 (C14, serde half) a type with Spanned wrappers (`Y`) and its erasure on the span
+                           tree the Coq parser builds from the document text (Model/Document.v)
      consts                the reserved names the model assumes (compared with the crates' constants)
      fidelity <n>          `-` (a self-check of the Rust harness; nothing to model)
    `-` is also the answer for a type outside the modelled universe (the untyped `toml::Value` leaf). *)
 From TV Require Import Base.Prelude Base.Utf8 Model.Datetime Model.DatetimeStd Model.SerNum
-  Spec.SerdeData Model.Ser Model.De Model.SerFmt Model.SerdeRoutes Extract.Show.
+  Spec.SerdeData Model.Ser Model.De Model.SerFmt Model.SerdeRoutes Model.SerdeSpanned Extract.SpannedTree Extract.Show.
 Require Import String.
 
 (* ---- tokens ---- *)
@@ -386,11 +388,112 @@ Definition cmd_tryfrom (tys vals : bytes) : bytes :=
   | _, _ => str "BADCASE"
   end.
 
+(* ---- C14, serde half ---- *)
+(* types with Spanned wrappers: the syntax of parse_ty plus `Y ty` *)
+Fixpoint parse_sty (fuel : nat) (toks : list bytes) : pres sty :=
+  match fuel with
+  | O => PBad
+  | S f =>
+    match toks with
+    | [] => PBad
+    | tok :: r =>
+      let pfield := fun tk => pbind (pname tk) (fun n r1 => pbind (parse_sty f r1) (fun t r2 => POk (n, t) r2)) in
+      if is tok "b" then POk (YPlain TBool) r
+      else if is tok "f32" then POk (YPlain (TFloat F32)) r
+      else if is tok "f64" then POk (YPlain (TFloat F64)) r
+      else if is tok "c" then POk (YPlain TChar) r
+      else if is tok "s" then POk (YPlain TStr) r
+      else if is tok "dt" then POk (YPlain (TDatetime KDatetime)) r
+      else if is tok "da" then POk (YPlain (TDatetime KDate)) r
+      else if is tok "ti" then POk (YPlain (TDatetime KTime)) r
+      else if is tok "u" then POk (YPlain TUnit) r
+      else if is tok "v" then PUnmodelled
+      else if is tok "Y" then pbind (parse_sty f r) (fun t r1 => POk (YSpanned t) r1)
+      else if is tok "O" then pbind (parse_sty f r) (fun t r1 => POk (YOpt t) r1)
+      else if is tok "L" then pbind (parse_sty f r) (fun t r1 => POk (YSeq t) r1)
+      else if is tok "M" then pbind (parse_sty f r) (fun k r1 => pbind (parse_sty f r1) (fun v r2 => POk (YMap k v) r2))
+      else if is tok "N" then pbind (pname r) (fun n r1 => pbind (parse_sty f r1) (fun t r2 => POk (YNewtype n t) r2))
+      else if is tok "Z" then pbind (pname r) (fun n r1 => POk (YPlain (TUnitStruct n)) r1)
+      else match int_of_tok tok with
+      | Some w => POk (YPlain (TInt w)) r
+      | None =>
+        match tok with
+        | h :: cnt =>
+          let n := parse_nat cnt in
+          if byte_eqb h "T"%byte then pbind (prep (parse_sty f) n r) (fun ts r1 => POk (YTuple ts) r1)
+          else if byte_eqb h "S"%byte then
+            pbind (pname r) (fun nm r1 => pbind (prep pfield n r1) (fun fs r2 => POk (YStruct nm fs) r2))
+          else if byte_eqb h "P"%byte then
+            pbind (pname r) (fun nm r1 => pbind (prep (parse_sty f) n r1) (fun ts r2 => POk (YTupleStruct nm ts) r2))
+          else if byte_eqb h "E"%byte then
+            let pvariant := fun tk =>
+              match tk with
+              | vt :: r1 =>
+                pbind (pname r1) (fun vn r2 =>
+                  if is vt "vu" then POk (vn, YVUnit) r2
+                  else if is vt "vn" then pbind (parse_sty f r2) (fun t r3 => POk (vn, YVNewtype t) r3)
+                  else match vt with
+                       | a :: b :: cnt' =>
+                         let k := parse_nat cnt' in
+                         if byte_eqb a "v"%byte && byte_eqb b "t"%byte
+                         then pbind (prep (parse_sty f) k r2) (fun ts r3 => POk (vn, YVTuple ts) r3)
+                         else if byte_eqb a "v"%byte && byte_eqb b "s"%byte
+                         then pbind (prep pfield k r2) (fun fs r3 => POk (vn, YVStruct fs) r3)
+                         else PBad
+                       | _ => PBad
+                       end)
+              | [] => PBad
+              end in
+            pbind (pname r) (fun nm r1 => pbind (prep pvariant n r1) (fun vs r2 => POk (YEnum nm vs) r2))
+          else PBad
+        | [] => PBad
+        end
+      end
+    end
+  end.
+
+Fixpoint xval_tokens (x : xval) : list bytes :=
+  match x with
+  | XPlain v => sval_tokens v
+  | XSpanned a b v => (str "Y" ++ show_N a ++ str "-" ++ show_N b) :: xval_tokens v
+  | XSome v => str "O" :: xval_tokens v
+  | XSeq vs => (str "L" ++ show_nat (List.length vs)) :: flat_map xval_tokens vs
+  | XMap es => (str "M" ++ show_nat (List.length es)) :: flat_map (fun kv => xval_tokens (fst kv) ++ xval_tokens (snd kv)) es
+  | XRec vs => (str "R" ++ show_nat (List.length vs)) :: flat_map xval_tokens vs
+  | XNewtype v => str "W" :: xval_tokens v
+  | XVariant i p => (str "E" ++ show_nat i) :: xval_tokens p
+  end.
+Definition show_xdec (r : result xval) : bytes :=
+  match r with
+  | Ok x => str "ok:" ++ join (str ",") (xval_tokens x)
+  | Err EUnmodelled => str "*"
+  | Err _ => str "err"
+  end.
+
+Definition cmd_spanned (tys doc : bytes) : bytes :=
+  let tt := split_on ","%byte tys in
+  match parse_sty (S (List.length tt)) tt with
+  | PUnmodelled => str "-"
+  | POk t [] =>
+    match parse_stree doc with
+    | None => str "valid=0"
+    | Some None => str "-"
+    | Some (Some s) =>
+      let w := show_xdec (de_s t s) in
+      let p := show_dec (de_value (erase_ty t) (strip s)) in
+      (* t / e: toml::from_str and toml_edit::de::from_str read the same spanned tree; edoc: a DocumentMut has no spans *)
+      str "valid=1 w_t=" ++ w ++ str " w_e=" ++ w ++ str " p_t=" ++ p ++ str " p_e=" ++ p
+      ++ str " w_edoc=" ++ show_xdec (de_s t (despan s))
+    end
+  | _ => str "BADCASE"
+  end.
+
 Definition cmd_consts : bytes :=
   str "dt_name=" ++ hexs DT_NAME ++ str " dt_field=" ++ hexs DT_FIELD ++ str " spanned_name=" ++ hexs SPANNED_NAME.
 
 Definition run_cmd (name : bytes) (args : list bytes) : bytes :=
   if is name "fidelity" then str "-"
+  else if is name "spanned_fidelity" then str "-"
   else if is name "consts" then cmd_consts
   else match args with
        | [tys; vals] =>
@@ -398,6 +501,7 @@ Definition run_cmd (name : bytes) (args : list bytes) : bytes :=
          else if is name "typed" then cmd_typed tys vals
          else if is name "routes_ser" then cmd_routes_ser tys vals
          else if is name "tryfrom" then cmd_tryfrom tys vals
+         else if is name "spanned" then cmd_spanned tys vals
          else str "unknown-command"
        | [tys; _; _; dtree; vtree] => if is name "routes" then cmd_routes tys dtree vtree else str "unknown-command"
        | _ => if is name "routes" then str "-" else str "bad-args"
